@@ -170,6 +170,9 @@ func (ev *evidence) write() {
 	}
 	data, _ := json.MarshalIndent(out, "", " ")
 	dir := filepath.Join(ev.verif, "evidence")
+	if d := os.Getenv("VERIF_EVIDENCE_DIR"); d != "" {
+		dir = d
+	}
 	os.MkdirAll(dir, 0o755)
 	if err := os.WriteFile(filepath.Join(dir, ev.Property+".json"), data, 0o644); err != nil {
 		fmt.Fprintln(os.Stderr, "cannot write evidence:", err)
